@@ -62,7 +62,7 @@ def strategy(tier):
                      min_size=0, max_size=4)),
         # /proc/zoneinfo present but not openable (LSM / container masking):
         # the watermarks are as unavailable as when the file is absent
-        zoneinfo_errno=st.sampled_from([None, None, None, "EACCES", "EPERM", "EIO", "EISDIR"]),
+        zoneinfo_errno=st.sampled_from([None, None, None, None, None, None, "EACCES", "EPERM", "EIO", "EISDIR"]),
         vmstat=st.one_of(
             st.none(),
             st.fixed_dictionaries(dict(
@@ -274,6 +274,18 @@ def run_case(case):
             except Exception as e:  # noqa: BLE001
                 raise Violation("swap-succeeds", f"swap_memory() raised {e!r}")
         sw_ws = [w for w in ws2 if issubclass(w.category, RuntimeWarning)]
+        # the zone watermarks change (vm.min_free_kbytes written, memory
+        # hot-plug): the next call uses the new ones
+        vm2 = zones2 = None
+        if zones is not None and "fallback-watermarks" in branches:
+            zones2 = [(n_, mn_, lo_ * 2 + 257, hi_) for n_, mn_, lo_, hi_ in zones]
+            k.set_file("/proc/zoneinfo", render_zoneinfo(zones2))
+            with warnings.catch_warnings():
+                warnings.simplefilter("ignore")
+                try:
+                    vm2 = psutil.virtual_memory()
+                except Exception as e:  # noqa: BLE001
+                    raise Violation("vm-succeeds", f"second virtual_memory() raised {e!r}")
 
     if vm._fields != ("total", "available", "percent", "used", "free", "active",
                       "inactive", "buffers", "cached", "shared", "slab"):
@@ -284,6 +296,12 @@ def run_case(case):
                             f"{name}={getattr(vm, name)!r} expected {v!r} "
                             f"(branches {sorted(branches)})")
     check_percent(vm.percent, pct, "vm-percent")
+    if vm2 is not None:
+        exp2 = model_vm(items, zones2)[0]
+        if vm2.available != exp2["available"]:
+            raise Violation("vm-available", f"after the zone watermarks changed: available={vm2.available!r} "
+                                            f"expected {exp2['available']!r} (first call {vm.available!r})")
+        branches.add("watermarks-changed-between-two-calls")
     if exp["free"] <= exp["total"] and not 0 <= vm.percent <= 100:
         raise Violation("vm-percent-range", repr(vm.percent))
     # warnings: exactly one naming exactly the missing metrics
